@@ -426,21 +426,31 @@ def check(ctx, rep):
         lb = sl.body
         apply_calls = [i for i in sl.term_info.values() if i.get("k") == "call" and i["name"].endswith("InnerCrypto::apply")]
         one = len(apply_calls) == 1
+        scalar_view = False
         if one:
             old = sl.call_old.get((apply_calls[0]["site"], 1))
             one = old is not None and strip(old) == ("agg", "array", None, 0, (("param", 2),))
+            if not one and old is not None and strip(old) == ("param", 2):
+                # the byte itself viewed as a one-element slice (`slice::from_mut(&mut byte)`)
+                la_ = apply_calls[0].get("locargs", ((), ()))
+                one = scalar_view = len(la_) > 1 and la_[1][0] == "ref" and la_[1][1] == ("local", 2)
         rep.check(one, "stream-step", fl, "one-byte", "exactly one more keystream byte is consumed, for the given byte", "decrypt_large_server_header does not apply the keystream to exactly the one given byte", lb.loc())
         r = strip(sl.ret)
         good = False
         desc = show(r, maxdepth=3)
         hf = [i for i, f in enumerate(fb.adt_fields(DEC)) if fb.ty(f["ty"]).k == "array"]
         if r[0] == "agg" and r[2] == "wrath_header::ServerHeader" and len(hf) == 1 and one:
-            B = ("after", apply_calls[0]["term"], 1, ("agg", "array", None, 0, (("param", 2),)))
+            B = ("after", apply_calls[0]["term"], 1, ("param", 2) if scalar_view else ("agg", "array", None, 0, (("param", 2),)))
             env = {("field", ("param", 1), hf[0]): "H", strip(B): "B"}
+            if scalar_view:
+                env = {("field", ("param", 1), hf[0]): "H", ("index", strip(B), ("int", 0, "usize")): "B0x", strip(B): "B1"}
             fields = [f["name"] for f in fb.adt_fields("wrath_header::ServerHeader")]
             got = {f: arith.bv(v, env) for f, v in zip(fields, r[4])}
             h = lambda k: ("idx", S("H"), I(k))
             want = {"size": (h(2), h(1), ("and", frozenset([h(0), I(0x7F)]))), "opcode": (h(3), ("idx", S("B"), I(0)))}
+            if scalar_view:
+                # the decrypted byte is the scalar itself; normalise to the one-element-array form
+                got = {f: (tuple(("idx", S("B"), I(0)) if x == S("B1") else x for x in v) if v is not None else None) for f, v in got.items()}
             good = all(got.get(f) is not None and arith.bv_trim(got[f]) == want[f] for f in want)
             if good:
                 dec_terms["long"] = {f: arith.bv_trim(got[f]) for f in want}
